@@ -79,18 +79,24 @@ class Recorder:
     def tick_of_jd(self, jd) -> int:
         return int(round((float(jd) - float(self.app.clock.julian_date_start)) * 86400.0))
 
-    def event_id(self, etype, t0_tick, ident):
-        for m in self.events_meta:
-            if m["etype"] == etype and m["t0"] == t0_tick and m["ident"] == ident:
-                return m["id"]
+    @staticmethod
+    def _same_dv(m, dv):
+        """Several impulses of one agent at one instant are told apart by their delta-v (as configured)."""
+        if dv is None or m.get("dv") is None:
+            return True
+        return all(abs(float(a) - float(b)) <= 1e-12 for a, b in zip(m["dv"], dv))
+
+    def event_id(self, etype, t0_tick, ident, dv=None):
+        cands = [m for m in self.events_meta if m["etype"] == etype and m["t0"] == t0_tick and m["ident"] == ident]
+        if len(cands) > 1:
+            cands = [m for m in cands if self._same_dv(m, dv)] or cands
+        if cands:
+            return cands[0]["id"]
         return f"unknown:{etype}:{t0_tick}:{ident}"
 
-    def impulse_id(self, agent_id, sim_time):
+    def impulse_id(self, agent_id, sim_time, dv=None):
         t = int(round(float(sim_time)))
-        for m in self.events_meta:
-            if m["etype"] == "impulse" and m["ident"] == agent_id and m["t0"] == t:
-                return m["id"]
-        return f"unknown:impulse:{t}:{agent_id}"
+        return self.event_id("impulse", t, agent_id, dv)
 
     def bias_proj(self):
         out = []
@@ -297,7 +303,8 @@ def install():
 
     def after_handle(r, self, a, k, res):
         inst = a[0]
-        eid = r.event_id(self.event_type, r.tick_of_jd(self.start_time_jd), ident_of(self))
+        dv = [self.thrust_vec_0, self.thrust_vec_1, self.thrust_vec_2] if self.event_type == "impulse" else None
+        eid = r.event_id(self.event_type, r.tick_of_jd(self.start_time_jd), ident_of(self), dv)
         if isinstance(inst, EstimateAgent):
             r.est_delivered.append(eid)
             return
@@ -347,7 +354,7 @@ def install():
 
     def after_dv(r, self, a, k, res):
         job = _sched.CURRENT_JOB[-1] if _sched.CURRENT_JOB else None
-        eid = r.impulse_id(self.agent_id, self.time)
+        eid = r.impulse_id(self.agent_id, self.time, [float(x) for x in self.thrust[3:6]])
         if job == "asyncPropagate":
             r.applied_truth.setdefault(self.agent_id, []).append(eid)
         elif job == "asyncPredict":
